@@ -483,7 +483,7 @@ func init() {
 		RuleText: "hybrid index over every combination of configured sub-indexes (vector kinds flat/ivf/pq/ivfpq at full probe, 3 metrics); histories of Add/AddWithID/Remove/Flush with adds failing in the 1st (wrong dimension, zero vector under cosine) or 3rd (unsupported metadata type) sub-index, removal of unknown ids, id reuse after removal with flushes anywhere; after every op vector/text/metadata probes through the hybrid search and each sub-index directly; non-trivial = some probe found a document AND (an add was rejected OR a removal succeeded OR a removed id was re-added); distinct = distinct request streams",
 		NCases: func(tier string) int {
 			if tier == "thorough" {
-				return 4000
+				return 30000
 			}
 			return 300
 		},
